@@ -102,7 +102,9 @@ type jsonGen struct {
 	yamlSafe bool // always escape the characters YAML treats as line breaks inside quoted strings
 }
 
-var jsonStrPieces = []string{"a", "b", "xyz", " ", "\"", "\\", "/", "\n", "\t", "\r", "\b", "\f", "\x01", "\x1f", "é", "ü", "日本", "😀", "€", ",", ":", "{", "}", "[", "]", "'", "$", "null", "true", "1", "0x10", " ", " "}
+var jsonStrPieces = []string{"a", "b", "xyz", " ", "\"", "\\", "/", "\n", "\t", "\r", "\b", "\f", "\x01", "\x1f", "é", "ü", "日本", "😀", "€", ",", ":", "{", "}", "[", "]", "'", "$", "null", "true", "1", "0x10", " ", " ",
+	// a backslash in the content right before a character that would form an escape with it
+	"\\/", "a\\/b", "\\\\/", "\\u0041", "\\n", "\\\"", "\\ud83d"}
 
 func (j *jsonGen) str() string {
 	n := j.r.Intn(5)
